@@ -798,6 +798,8 @@ func runC05(c *Ctx) {
 		c.judge(has, "R-HEAPIFY-COVER", fnName(fn)+":re-heapifies", fn.Pos(), "reaches a sift-down loop", "the operation installs new contents or a new order but reaches no loop that sifts its loop variable down: the heap order is not re-established (sifting up from the middle does not build a heap)")
 	}
 	ruleOffsetValid(c, m)
+	ruleMoveNonNil(c, m)
+	ruleEmptyAgreesLen(c, "heapq", "Queue")
 	// ---- R-SORT-SHORTCUT: a sortedness test that lets Sort return early is made with the caller's order
 	if sortFn := P.Func("heapq", "", "Sort"); sortFn != nil && len(sortFn.Params) >= 1 {
 		var userCmp *ssa.Parameter
@@ -994,11 +996,31 @@ func runC05(c *Ctx) {
 			if _, f := fieldVarOf(fa); !sameField(f, m.dataF) {
 				return false
 			}
+			var sized func(v ssa.Value, d int) bool
+			sized = func(v ssa.Value, d int) bool {
+				switch v := v.(type) {
+				case *ssa.MakeSlice:
+					return isLenVs(v.Len)
+				case *ssa.Slice:
+					return v.Low == nil && v.High != nil && isLenVs(v.High)
+				case *ssa.Phi:
+					// a local that receives the re-sliced old buffer on one branch and a fresh one on the other
+					if d > 3 || len(v.Edges) == 0 {
+						return false
+					}
+					for _, e := range v.Edges {
+						if !sized(e, d+1) {
+							return false
+						}
+					}
+					return true
+				}
+				return false
+			}
+			if sized(st.Val, 0) {
+				return true
+			}
 			switch v := st.Val.(type) {
-			case *ssa.MakeSlice:
-				return isLenVs(v.Len)
-			case *ssa.Slice:
-				return v.Low == nil && v.High != nil && isLenVs(v.High)
 			case *ssa.Call:
 				// slices.Clone(vs) / append([]T(nil), vs...) / append(buf[:0], vs...) with an empty base
 				var lenZero func(b ssa.Value, d int) bool
@@ -1076,8 +1098,20 @@ func runC05(c *Ctx) {
 		// the copy: on every path (except len(vs)==0) copy(q.data, vs) or equivalent
 		isCopy := func(in ssa.Instruction) bool {
 			if call, ok := in.(*ssa.Call); ok {
-				if cp, ok := isBuiltinCall(call, "copy"); ok && isLoadOfField(cp.Call.Args[0], m.dataF) && cp.Call.Args[1] == ssa.Value(vs) {
-					return true
+				if cp, ok := isBuiltinCall(call, "copy"); ok && cp.Call.Args[1] == ssa.Value(vs) {
+					if isLoadOfField(cp.Call.Args[0], m.dataF) {
+						return true
+					}
+					// the destination is a local buffer that is installed as the queue's buffer
+					for _, r := range referrersOf(cp.Call.Args[0]) {
+						if st, ok := r.(*ssa.Store); ok && st.Val == cp.Call.Args[0] {
+							if fa, ok := st.Addr.(*ssa.FieldAddr); ok {
+								if _, f := fieldVarOf(fa); sameField(f, m.dataF) {
+									return true
+								}
+							}
+						}
+					}
 				}
 			}
 			if st, ok := in.(*ssa.Store); ok {
@@ -1108,6 +1142,7 @@ func runC06(c *Ctx) {
 	P := c.P
 	eff := newEff(P)
 	ruleOffsetValid(c, m) // the offsets reported are the ones Peek and Remove accept
+	ruleMoveNonNil(c, m)
 	// removing by a reported offset must work for every offset reported, the tail included (shared with C05)
 	c.rule("R-POP-CONSERVES", 0, "the removal helper keeps the tail element and touches slot i after the cut only under i < new length (shared with C05)")
 	{
@@ -1521,17 +1556,65 @@ func rulePosWriters(c *Ctx) {
 					key := name + ":delete(present,k)"
 					c.sawFn(name)
 					paired := false
-					for _, in2 := range fn.Blocks[0].Instrs {
-						_ = in2
-					}
+					wrongElem := ""
 					allInstrs(fn, func(in2 ssa.Instruction) {
 						if call, ok := in2.(*ssa.Call); ok {
 							cal := staticCallee(&call.Call)
 							if (cal == qRemove || cal == qPop) && isLoadOfField(call.Call.Args[0], accessF) && dominatesInstr(call, del) {
 								paired = true
+								// … and it is the deleted key's own element that leaves the heap: a removal by offset takes
+								// the offset the index holds for that key; a removal of the front deletes the key of the
+								// element that came out
+								delKey := del.Call.Args[1]
+								if cal == qRemove && len(call.Call.Args) == 2 {
+									var lk *ssa.Lookup
+									switch p := call.Call.Args[1].(type) {
+									case *ssa.Extract:
+										lk, _ = p.Tuple.(*ssa.Lookup)
+									case *ssa.Lookup:
+										lk = p
+									}
+									if lk == nil || !isLoadOfField(lk.X, presentF) || (lk.Index != delKey && sym(lk.Index) != sym(delKey)) {
+										wrongElem = "the heap removal does not use the offset the index holds for the deleted key"
+									}
+								}
+								if cal == qPop {
+									var from func(v ssa.Value, d int) bool
+									from = func(v ssa.Value, d int) bool {
+										if d > 5 {
+											return false
+										}
+										switch y := v.(type) {
+										case *ssa.Call:
+											return y == call
+										case *ssa.Extract:
+											return from(y.Tuple, d+1)
+										case *ssa.Field:
+											return from(y.X, d+1)
+										case *ssa.UnOp:
+											if fa, ok := y.X.(*ssa.FieldAddr); ok {
+												if al, ok := fa.X.(*ssa.Alloc); ok {
+													for _, r := range referrersOf(al) {
+														if st, ok := r.(*ssa.Store); ok && st.Addr == ssa.Value(al) && from(st.Val, d+1) {
+															return true
+														}
+													}
+												}
+											}
+										}
+										return false
+									}
+									if !from(delKey, 0) {
+										wrongElem = "the front of the heap is removed, but the key deleted from the index is not that element's key: the heap loses one entry and the index another"
+									}
+								}
 							}
 						}
 					})
+					if paired && wrongElem != "" {
+						c.bad("R-POS-WRITERS", key, x.Pos(), wrongElem)
+						return
+					}
 					c.judge(paired, "R-POS-WRITERS", key, x.Pos(), "index entry deleted together with the heap removal", "index entry deleted without removing the element from the heap")
 				}
 				if clr, ok := isBuiltinCall(x, "clear"); ok && isLoadOfField(clr.Call.Args[0], presentF) {
@@ -1742,80 +1825,80 @@ func naturalCmpVerdict(P *Prog, v ssa.Value) (ok bool, judged bool, why string) 
 func ruleOffsetValid(c *Ctx, m *heapModel) {
 	P := c.P
 	c.rule("R-OFFSET-VALID", 1, "Remove and Peek treat the same offsets as out of range")
-		var refusalP func(fn *ssa.Function, p *ssa.Parameter, depth int) (string, token.Pos)
-		refusal := func(fn *ssa.Function) (string, token.Pos) {
-			if fn == nil || len(fn.Params) < 2 {
-				return "", 0
-			}
-			return refusalP(fn, fn.Params[1], 0)
+	var refusalP func(fn *ssa.Function, p *ssa.Parameter, depth int) (string, token.Pos)
+	refusal := func(fn *ssa.Function) (string, token.Pos) {
+		if fn == nil || len(fn.Params) < 2 {
+			return "", 0
 		}
-		refusalP = func(fn *ssa.Function, p *ssa.Parameter, depth int) (string, token.Pos) {
-			res, pos := "", token.NoPos
+		return refusalP(fn, fn.Params[1], 0)
+	}
+	refusalP = func(fn *ssa.Function, p *ssa.Parameter, depth int) (string, token.Pos) {
+		res, pos := "", token.NoPos
 
+		allInstrs(fn, func(in ssa.Instruction) {
+			bo, ok := in.(*ssa.BinOp)
+			if !ok {
+				return
+			}
+			x, y, op := bo.X, bo.Y, bo.Op
+			if y == ssa.Value(p) {
+				x, y = y, x
+				switch op {
+				case token.LSS:
+					op = token.GTR
+				case token.LEQ:
+					op = token.GEQ
+				case token.GTR:
+					op = token.LSS
+				case token.GEQ:
+					op = token.LEQ
+				}
+			}
+			if x != ssa.Value(p) {
+				return
+			}
+			if f, ok := affLenA(y, m, nil); ok && f.a == 1 && f.d == 1 {
+				// canonical: the set of offsets refused, relative to len
+				switch op {
+				case token.GEQ:
+					res, pos = fmt.Sprintf("n >= len%+d", f.b), bo.Pos()
+				case token.GTR:
+					res, pos = fmt.Sprintf("n >= len%+d", f.b+1), bo.Pos()
+				case token.LSS:
+					res, pos = fmt.Sprintf("n >= len%+d (negated)", f.b), bo.Pos()
+				case token.LEQ:
+					res, pos = fmt.Sprintf("n >= len%+d (negated)", f.b+1), bo.Pos()
+				}
+			}
+		})
+		if res == "" && depth < 2 {
+			// the range test may live in a helper the offset is handed to
 			allInstrs(fn, func(in ssa.Instruction) {
-				bo, ok := in.(*ssa.BinOp)
-				if !ok {
+				call, ok := in.(*ssa.Call)
+				if !ok || res != "" {
 					return
 				}
-				x, y, op := bo.X, bo.Y, bo.Op
-				if y == ssa.Value(p) {
-					x, y = y, x
-					switch op {
-					case token.LSS:
-						op = token.GTR
-					case token.LEQ:
-						op = token.GEQ
-					case token.GTR:
-						op = token.LSS
-					case token.GEQ:
-						op = token.LEQ
-					}
-				}
-				if x != ssa.Value(p) {
+				cal := staticCallee(&call.Call)
+				if cal == nil || origin(cal).Pkg != fn.Pkg || origin(cal).Blocks == nil {
 					return
 				}
-				if f, ok := affLenA(y, m, nil); ok && f.a == 1 && f.d == 1 {
-					// canonical: the set of offsets refused, relative to len
-					switch op {
-					case token.GEQ:
-						res, pos = fmt.Sprintf("n >= len%+d", f.b), bo.Pos()
-					case token.GTR:
-						res, pos = fmt.Sprintf("n >= len%+d", f.b+1), bo.Pos()
-					case token.LSS:
-						res, pos = fmt.Sprintf("n >= len%+d (negated)", f.b), bo.Pos()
-					case token.LEQ:
-						res, pos = fmt.Sprintf("n >= len%+d (negated)", f.b+1), bo.Pos()
+				for i, a := range call.Call.Args {
+					if a == ssa.Value(p) && i < len(origin(cal).Params) {
+						if r, ps := refusalP(origin(cal), origin(cal).Params[i], depth+1); r != "" {
+							res, pos = r, ps
+						}
 					}
 				}
 			})
-			if res == "" && depth < 2 {
-				// the range test may live in a helper the offset is handed to
-				allInstrs(fn, func(in ssa.Instruction) {
-					call, ok := in.(*ssa.Call)
-					if !ok || res != "" {
-						return
-					}
-					cal := staticCallee(&call.Call)
-					if cal == nil || origin(cal).Pkg != fn.Pkg || origin(cal).Blocks == nil {
-						return
-					}
-					for i, a := range call.Call.Args {
-						if a == ssa.Value(p) && i < len(origin(cal).Params) {
-							if r, ps := refusalP(origin(cal), origin(cal).Params[i], depth+1); r != "" {
-								res, pos = r, ps
-							}
-						}
-					}
-				})
-				return res, pos
-			}
-			return strings.Replace(res, "len+0", "len", 1), pos
+			return res, pos
 		}
-		pk, rm := P.Func("heapq", "Queue", "Peek"), P.Func("heapq", "Queue", "Remove")
-		a, _ := refusal(pk)
-		b, pos := refusal(rm)
-		if a != "" && b != "" {
-			c.sawFn(fnName(rm))
-			c.judge(strings.TrimSuffix(a, " (negated)") == strings.TrimSuffix(b, " (negated)"), "R-OFFSET-VALID", "heapq.(*Queue).Remove:refuses what Peek refuses", pos, "both refuse "+strings.TrimSuffix(b, " (negated)"), fmt.Sprintf("Peek treats offsets with %s as out of range, Remove those with %s: an element Peek shows cannot be removed (or a missing one can)", strings.TrimSuffix(a, " (negated)"), strings.TrimSuffix(b, " (negated)")))
-		}
+		return strings.Replace(res, "len+0", "len", 1), pos
 	}
+	pk, rm := P.Func("heapq", "Queue", "Peek"), P.Func("heapq", "Queue", "Remove")
+	a, _ := refusal(pk)
+	b, pos := refusal(rm)
+	if a != "" && b != "" {
+		c.sawFn(fnName(rm))
+		c.judge(strings.TrimSuffix(a, " (negated)") == strings.TrimSuffix(b, " (negated)"), "R-OFFSET-VALID", "heapq.(*Queue).Remove:refuses what Peek refuses", pos, "both refuse "+strings.TrimSuffix(b, " (negated)"), fmt.Sprintf("Peek treats offsets with %s as out of range, Remove those with %s: an element Peek shows cannot be removed (or a missing one can)", strings.TrimSuffix(a, " (negated)"), strings.TrimSuffix(b, " (negated)")))
+	}
+}
